@@ -69,6 +69,10 @@ pub enum Op {
     /// replicas, commit-or-unstage everywhere, then rounds of "every ordered pair melds, everyone
     /// refreshes"; within N+1 rounds every meld must return nothing and all states must be equal
     Converge { commit: bool },
+    /// C19, self-contained: replicas a and b are brought to the same version, both submit the same
+    /// document and commit with different commit infos, then exchange: the same edit on the same
+    /// version gives the same revisions, so no new conflict may arise
+    SameEdit { a: usize, b: usize, doc: Value },
 }
 
 impl Op {
@@ -80,6 +84,7 @@ impl Op {
             | FailWrites { r, .. } | DiskFull { r, .. } | Read { r } => Some(*r),
             Send { to, .. } | SendAll { to, .. } => Some(*to),
             Tick | Partition { .. } | Heal | Converge { .. } => None,
+            SameEdit { a, .. } => Some(*a),
         }
     }
 
@@ -107,6 +112,7 @@ impl Op {
             DiskFull { .. } => "diskfull",
             Read { .. } => "read",
             Converge { .. } => "converge",
+            SameEdit { .. } => "same_edit",
         }
     }
 
@@ -138,6 +144,7 @@ impl Op {
             DiskFull { r, on } => json!({"op":"diskfull","r":r,"on":on}),
             Read { r } => json!({"op":"read","r":r}),
             Converge { commit } => json!({"op":"converge","commit":commit}),
+            SameEdit { a, b, doc } => json!({"op":"same_edit","a":a,"b":b,"doc":doc}),
         }
     }
 
@@ -170,6 +177,7 @@ impl Op {
             "diskfull" => Op::DiskFull { r: u("r")?, on: b("on") },
             "read" => Op::Read { r: u("r")? },
             "converge" => Op::Converge { commit: b("commit") },
+            "same_edit" => Op::SameEdit { a: u("a")?, b: u("b")?, doc: o.get("doc").cloned().ok_or("missing doc")? },
             other => return Err(format!("unknown op {}", other)),
         })
     }
